@@ -1205,8 +1205,10 @@ class XsdGroup(XsdComponent, MutableSequence[ModelParticleType],
             reason = _("wrong content type {!r}").format(type(obj.content))
             context.validation_error(validation, self, reason, elem)
 
-        if not self.mixed and text and text.strip() and self and \
-                (len(self) > 1 or not isinstance(self[0], XsdAnyElement)):
+        if not self.mixed and \
+                (not self or len(self) > 1 or not isinstance(self[0], XsdAnyElement)) and \
+                (text and text.strip() or
+                 any(isinstance(child.tail, str) and child.tail.strip() for child in children)):
             reason = _("character data between child elements not allowed")
             context.validation_error(validation, self, reason, elem)
 
